@@ -1035,7 +1035,13 @@ _LIST_Q = [('force', 'kg m / s^2'), ('velocity', 'm/s'), ('length', '3 m'), ('en
 def _dims_of(line):
     (ln, text, raw) = run_queries([line])[0]
     if raw is None:
-        return None
+        # durations and other replies without a raw number: read the dimensionality off `units for (<expr>)`
+        (ln2, text2, raw2) = run_queries(['units for (%s)' % line])[0]
+        ul = [l for l in text2.splitlines() if l.startswith('UNITSFOR ')]
+        if not ul:
+            return None
+        rest = ul[0][9:]
+        return rest.rsplit(' | ', 1)[1].strip() if ' | ' in rest else ''
     return (raw.split(' | ') + [''])[1].strip()
 
 
